@@ -18,14 +18,15 @@ LOW = ('ADD_NODE', 'DEL_NODE', 'ADD_COL', 'DEL_COL', 'DEL_CON', 'ADD_CON', 'ADD_
 XHIGH = ('XREFINE', 'XSPLIT', 'XDECOMP', 'XREDUCE', 'XREFLAY', 'XSETSURF', 'XRENCOL')
 HIGH = XHIGH + ('RENAME_COL', 'SPLIT', 'REFINE', 'REFINE_LAYERS', 'DECOMPOSE', 'REDUCE', 'CHECK_FIX',
         'SNAP', 'SNAP_NEAREST', 'SET_SURFACE', 'TRANSLATE', 'ROTATE', 'COPY_LAYERS',
-        'DEL_ORPHANS', 'FIT_SURFACE', 'SET_OPTION', 'PERSIST')
+        'DEL_ORPHANS', 'FIT_SURFACE', 'SET_OPTION', 'EDIT_OTHER', 'PERSIST')
 ATMCOL = ('ATM', ' 0', '  0', 'ATM')
 # ops that recompute the derived block / connection name lists themselves
 REFRESHING = XHIGH + ('XINIT', 'INIT', 'REFRESH', 'RENAME_LAYER', 'RENAME_COL', 'SPLIT', 'REFINE', 'REFINE_LAYERS',
               'DECOMPOSE', 'REDUCE', 'SNAP', 'SNAP_NEAREST', 'SET_SURFACE', 'COPY_LAYERS',
               'FIT_SURFACE', 'SET_OPTION', 'PERSIST')
 # ops that change no name, column, connection, layer or surface (lists stay as fresh as they were)
-NEUTRAL = ('TRANSLATE', 'ROTATE', 'ADD_WELL', 'DEL_WELL', 'ADD_NODE', 'DEL_NODE', 'DEL_ORPHANS')
+NEUTRAL = ('TRANSLATE', 'ROTATE', 'ADD_WELL', 'DEL_WELL', 'ADD_NODE', 'DEL_NODE', 'DEL_ORPHANS',
+           'EDIT_OTHER')
 
 
 def my_fix(name):
@@ -976,6 +977,7 @@ class GeoMachine(Machine):
                                origin=[0., 0., geo.layerlist[0].bottom + lift])
         if any(c.surface <= other.layerlist[-1].bottom for c in geo.columnlist):
             return False        # the other layer structure must still contain every surface
+        self.other = other      # the source geometry lives on and may be edited later
         self.call(lambda: self.geo.copy_layers_from(other), 'copy_layers_from')
         self.layers_fresh = True
 
@@ -996,6 +998,21 @@ class GeoMachine(Machine):
             geo.atmosphere_type = new
         self.call(go2, 'atmosphere_type = %d' % new)
         return ('atm', new)
+
+    def op_EDIT_OTHER(self, ch):
+        """An edit of the *other* geometry that layers were copied from: this geometry must not
+        notice (two long-lived objects)."""
+        other = getattr(self, 'other', None)
+        if other is None:
+            return False
+        if ch[0] % 2:
+            self.call(lambda: other.translate([0., 0., (5.0, -12.5, 40.0)[ch[1] % 3]]),
+                      'other.translate')
+        else:
+            lay = other.layerlist[-1]
+            self.call(lambda: other.rename_layer(lay.name, 'zq'[ch[1] % 2] * len(lay.name)),
+                      'other.rename_layer')
+        self.ctx.probes['other_geometry_edited'] += 1
 
     def op_DEL_ORPHANS(self, ch):
         self.call(lambda: self.geo.delete_orphans(), 'delete_orphans')
@@ -1038,7 +1055,18 @@ class GeoMachine(Machine):
         fs.crash()
         fs.restart()
         fs.begin_op(2000000)
-        g2 = self.call(lambda: self.mg.mulgrid(path), 'read')
+        if ch[0] % 3 == 2:
+            # the same long-lived object re-reads its own file (after being edited meanwhile)
+            def reread():
+                geo.read(path)
+                return geo
+            if ch[1] % 2 and all(len(c.node) in (3, 4) for c in geo.columnlist) and \
+                    geo.num_columns < 120:
+                self.call(lambda: geo.refine([geo.columnlist[0].name]), 'refine')
+            g2 = self.call(reread, 'read into the same object')
+            ctx.probes['persist_reread_same_object'] += 1
+        else:
+            g2 = self.call(lambda: self.mg.mulgrid(path), 'read')
         if (g2.block_name_list, g2.block_connection_name_list) != tuple(names):
             raise Violation('J6.persist', 'name lists differ after a file round trip')
         g2.filename = ''
